@@ -56,7 +56,7 @@ META = {
                     "today (reported as a note, see final report); set REPORT_KEYED_UPDATE_LEVEL to make it a finding"],
     "technique": "typed dataflow over a statement CFG (reaching definitions + dominance) with set-equality chain",
 }
-MIN_INSTANCES = {"R1": 30, "R2": 22, "R3": 100, "R4": 60, "R5": 14, "R6": 3, "R7": 19}
+MIN_INSTANCES = {"R1": 40, "R2": 22, "R3": 200, "R4": 100, "R5": 15, "R6": 3, "R7": 38}
 
 CONV = {"tocsr", "tocsc", "tocoo", "copy"}
 SPARSE_CTORS = {"csr_matrix", "csc_matrix", "coo_matrix", "csr_array", "csc_array", "coo_array"}
@@ -499,10 +499,26 @@ class Model:
         for up in self.updates:
             self.accs.setdefault(up.acc, []).append(up)
         self.keyed = {a: ups[0].acc_key is not None for a, ups in self.accs.items()}
+        # names initialised like an accumulator (sparse matrix with explicit shape before the loop) that
+        # are never accumulated into: kept in the model so that the downstream chain is still analysed
+        for nm, ds in self.f.defs.items():
+            if nm in self.accs:
+                continue
+            ini = [d for d in ds if self._is_init(d)]
+            if len(ini) == 1 and len([d for d in ds if d.kind in ("plain", "sub") and d.value is not None
+                                      and not isinstance(d.value, ast.Dict)]) == 1 \
+                    and not _looks_like_matdict(self.f, nm, ini[0].stmt):
+                self.accs[nm] = []
+                self.keyed[nm] = ini[0].kind == "sub"
         self.f.no_expand |= set(self.accs) | {x.m for x in self.updates}
         for a, ups in self.accs.items():
-            if len({x.acc_key is not None for x in ups}) != 1:
+            if ups and len({x.acc_key is not None for x in ups}) != 1:
                 raise self.f.und(f"accumulator {a} is used both as a matrix and as a dictionary")
+
+    def _is_init(self, d: Def) -> bool:
+        return (self.before_loop(d.stmt) and d.kind in ("plain", "sub") and isinstance(d.value, ast.Call)
+                and call_name(d.value) in SPARSE_CTORS and bool(d.value.args) and isinstance(d.value.args[0], ast.Tuple)
+                and len(d.value.args[0].elts) == 2)
 
     # -- spaces from the initial shapes ---------------------------------------------------------
     def space_of(self, e: ast.expr, at: ast.stmt) -> Space:
@@ -532,9 +548,7 @@ class Model:
         self.shape: dict[str, tuple[Space, Space]] = {}
         self.init_stmt: dict[str, ast.stmt] = {}
         for a in self.accs:
-            cands = [d for d in f.defs.get(a, []) if self.before_loop(d.stmt) and d.kind in ("plain", "sub")
-                     and isinstance(d.value, ast.Call) and call_name(d.value) in SPARSE_CTORS and d.value.args
-                     and isinstance(d.value.args[0], ast.Tuple) and len(d.value.args[0].elts) == 2]
+            cands = [d for d in f.defs.get(a, []) if self._is_init(d)]
             if len(cands) != 1:
                 raise f.und(f"accumulator {a}: expected one initialisation with an explicit shape before the loop, "
                             f"found {len(cands)}")
@@ -547,6 +561,11 @@ class Model:
 
     def row_kind(self, a: str) -> str:
         return self.shape[a][0].kind
+
+
+def _looks_like_matdict(f: Fn, nm: str, at: ast.stmt) -> bool:
+    c = f.canon(ast.Name(id=nm, ctx=ast.Load()), at)
+    return any(isinstance(n, ast.Attribute) and n.attr == "DISCRETIZATION_MATRICES" for n in ast.walk(c))
 
 
 def _is_values_list(e: ast.expr, p: str) -> bool:
@@ -789,6 +808,10 @@ def scaling_matrix(m: Model, sx: ast.expr, at: ast.stmt) -> ScaleInfo:
         recip, rep = True, data.left
     elif _np_call(data, {"reciprocal"}) and data.args:  # type: ignore[attr-defined]
         recip, rep = True, data.args[0]  # type: ignore[attr-defined]
+    elif isinstance(data, ast.BinOp) and isinstance(data.op, ast.Mult) and isinstance(data.left, ast.Constant):
+        rep = data.right  # a multiple of the count, not its reciprocal
+    elif isinstance(data, ast.BinOp) and isinstance(data.op, ast.Mult) and isinstance(data.right, ast.Constant):
+        rep = data.left
     rep = f.canon(rep, at, depth=1) if isinstance(rep, ast.Name) else rep
     # strip ravel / flatten
     order = None
@@ -917,3 +940,714 @@ def writes(m: Model, globs: set[str]) -> list[Write]:
     if not out:
         raise AnchorError(f"{f.where()}: no store into data[DISCRETIZATION_MATRICES][keyword] found")
     return out
+
+
+# ------------------------------------------------------------------------------------
+# rules over one discretize()
+
+def _left_ok(mr: Optional[MapRef], rows: Space) -> bool:
+    want = ("F", False) if rows.kind == "F" else ("C", True)
+    return (mr is not None and (mr.space.kind, mr.transposed) == want and mr.space.vec == rows.vec
+            and (not rows.vec or mr.space.nd == rows.nd))
+
+
+def _right_ok(mr: Optional[MapRef], cols: Space) -> bool:
+    want = ("C", False) if cols.kind == "C" else ("F", True)
+    return (mr is not None and (mr.space.kind, mr.transposed) == want and mr.space.vec == cols.vec
+            and (not cols.vec or mr.space.nd == cols.nd))
+
+
+def _mr_txt(mr: Optional[MapRef]) -> str:
+    if mr is None:
+        return "not a subgrid map"
+    return ("transposed " if mr.transposed else "") + {"F": "face map", "C": "cell map"}[mr.space.kind] + \
+        (f" (vector, nd={mr.space.nd})" if mr.space.vec else " (scalar)")
+
+
+def _nd_expected(spaces: list[Space]) -> set[str]:
+    return {(s.nd or "DIM") if s.vec else "1" for s in spaces}
+
+
+def check_function(ctx: Ctx, m: Model) -> dict:
+    f, T = m.f, m.T
+    mod, q = f.mod, f.qual
+    names, alias = local_unpacks(m)
+    lrem, frem = loop_removals(m, alias), final_removals(m)
+    sc, _ = scalings(m)
+    gds = glob_defs(m)
+    globs = sorted({g.g for g in gds})
+    ws = writes(m, set(globs))
+    accs = list(m.accs)
+    acc_of_m: dict[str, set[str]] = {}
+    for up in m.updates:
+        acc_of_m.setdefault(up.m, set()).add(up.acc)
+
+    # find_active_indices -> (active_cells, active_faces)
+    ac = af = None
+    for nm, ds in f.defs.items():
+        for d in ds:
+            if d.kind == "tuple" and isinstance(d.value, ast.Call) and call_name(d.value) == "find_active_indices" and d.arity == 2:
+                if d.pos == 0:
+                    ac = nm
+                elif d.pos == 1:
+                    af = nm
+    if ac is None or af is None:
+        raise AnchorError(f"{f.where()}: `active_cells, active_faces = find_active_indices(...)` not found")
+
+    # key loops of dictionary-valued matrices iterate one and the same collection
+    key_iters: dict[str, ast.stmt] = {}
+
+    def key_loop_ok(s: ast.stmt, key: Optional[str]) -> bool:
+        if key is None:
+            return True
+        kl = f.key_loop(s, stop=m.loop)
+        if kl is None or u(kl.target) != key:
+            raise f.und("dictionary-valued matrix indexed by something other than the variable of its enclosing loop", s)
+        key_iters.setdefault(u(kl.iter), s)
+        return True
+
+    for a in accs:
+        if m.keyed[a]:
+            kl = f.key_loop(m.init_stmt[a])
+            if kl is None:
+                raise f.und(f"dictionary accumulator {a} is not initialised in a loop over its keys", m.init_stmt[a])
+            key_iters.setdefault(u(kl.iter), m.init_stmt[a])
+
+    for a in accs:
+        ctx.check("R3", bool(m.accs[a]), mod, q, m.init_stmt[a],
+                  f"{a} is initialised as an accumulator before the loop but no local matrix is accumulated into it",
+                  construct=f"accumulator {a}: updated in the loop")
+
+    # ---------------- R4: factors of the accumulations --------------------------------------
+    for up in m.updates:
+        rows, cols = m.shape[up.acc]
+        key_loop_ok(up.stmt, up.acc_key)
+        ctx.check("R4", _left_ok(up.L, rows), mod, q, up.stmt,
+                  f"left factor of the accumulation into {up.acc} is a {_mr_txt(up.L)} but the accumulator has rows {rows.txt()}",
+                  construct=f"{up.acc} += L * {up.m} * R : left factor", facts={"L": u(up.Lx), "rows": rows.txt()})
+        ctx.check("R4", _right_ok(up.R, cols), mod, q, up.stmt,
+                  f"right factor of the accumulation into {up.acc} is a {_mr_txt(up.R)} but the accumulator has columns {cols.txt()}",
+                  construct=f"{up.acc} += L * {up.m} * R : right factor", facts={"R": u(up.Rx), "cols": cols.txt()})
+        ctx.check("R4", up.acc_key == up.m_key, mod, q, up.stmt,
+                  f"accumulator {up.acc}[{up.acc_key}] is updated from {up.m}[{up.m_key}]: different keys",
+                  construct=f"{up.acc} += L * {up.m} * R : key")
+
+    # ---------------- R1: in-loop removal typed by row space ------------------------------------
+    def local_rows(n: str) -> Optional[Space]:
+        sp = [m.shape[up.acc][0] for up in m.updates if up.m == n]
+        if not sp:
+            return None
+        if len({(s.kind, s.vec, s.nd) for s in sp}) != 1:
+            raise f.und(f"local matrix {n} is accumulated into accumulators with different row spaces")
+        # the left factor decides; fall back on the accumulator's rows when it is not a valid left factor
+        L = [up.L for up in m.updates if up.m == n][0]
+        if L is not None and (L.space.kind, L.transposed) in (("F", False), ("C", True)):
+            return Space(L.space.kind, L.space.vec, L.space.nd)
+        return sp[0]
+
+    for n in sorted(set(names) | set(acc_of_m), key=lambda x: (names + sorted(acc_of_m)).index(x)):
+        ctx.check("R3", n in acc_of_m, mod, q, m.loop, f"local matrix {n} returned by the local discretization is never "
+                  f"accumulated", construct=f"local matrix {n}: accumulated")
+        rows = local_rows(n)
+        if rows is None:
+            continue
+        cover = [r for r in lrem if n in r.names]
+        ups = [up for up in m.updates if up.m == n]
+        right = [r for r in cover if r.kind == rows.kind and all(f.precedes(r.stmt, up.stmt) for up in ups)]
+        wrong = [r for r in cover if r.kind != rows.kind]
+        kind_txt = {"F": "faces of the overlap (l2g_faces not in faces_in_subgrid)",
+                    "C": "cells of the overlap (l2g_cells not in cells_in_subgrid)"}
+        msg = (f"local matrix {n} has {rows.txt()} rows: it must go through remove_nonlocal_contribution over the "
+               f"{kind_txt[rows.kind]} before it is accumulated"
+               + ("; it is passed to the removal over the other index space" if wrong else "")
+               + ("" if right else "; no such call covers it (or the call comes after the accumulation)"))
+        ctx.check("R1", bool(right) and not wrong, mod, q, (wrong or cover)[0].stmt if (wrong or cover) else m.loop,
+                  msg, construct=f"local removal of {n}",
+                  facts={"rows": rows.txt(), "covered_by": [r.kind for r in cover]})
+    for r in lrem:
+        ctx.check("R5", r.pair_ok, mod, q, r.stmt,
+                  f"in-loop elimination set must be the positions of {('l2g_faces', 'l2g_cells')[r.kind == 'C']} that are not in "
+                  f"{('faces_in_subgrid', 'cells_in_subgrid')[r.kind == 'C']}; found isin{r.pair[:2]}, negated={r.pair[2]}",
+                  construct=f"in-loop elimination set over {r.kind}", facts={"pair": list(r.pair)})
+        sp = [x for x in (local_rows(n) for n in r.names) if x is not None and x.kind == r.kind]
+        if sp:
+            exp = _nd_expected(sp)
+            got = f.dim_token(r.nd, r.stmt)
+            ctx.check("R1", len(exp) == 1 and got in exp, mod, q, r.stmt,
+                      f"nd argument of the in-loop removal is {u(r.nd)} but the matrices have rows {sorted({s.txt() for s in sp})}",
+                      construct=f"in-loop removal over {r.kind}: nd", facts={"nd": u(r.nd), "expected": sorted(exp)})
+
+    # ---------------- R5: repetition count source, shortcut test ---------------------------------
+    infos: dict[str, tuple[ScaleInfo, ast.stmt]] = {}
+    for s in sc:
+        if u(s.sx) not in infos:
+            infos[u(s.sx)] = (scaling_matrix(m, s.sx, s.stmt), s.stmt)
+    lsts = {i.lst for i, _ in infos.values()}
+    for lst in sorted(x for x in lsts if x):
+        apps = [s for s in f.stmts if m.in_loop(s) and isinstance(s, ast.Expr) and isinstance(s.value, ast.Call)
+                and isinstance(s.value.func, ast.Attribute) and s.value.func.attr == "append"
+                and isinstance(s.value.func.value, ast.Name) and s.value.func.value.id == lst]
+        if not apps:
+            raise f.und(f"list {lst} feeding the repetition count is not appended to inside the loop")
+        for a in apps:
+            arg = a.value.args[0] if a.value.args else None  # type: ignore[attr-defined]
+            ctx.check("R5", isinstance(arg, ast.Name) and arg.id == T["faces_in"], mod, q, a,
+                      "the face repetition count must be fed with faces_in_subgrid (2nd item of the subproblem tuple: faces "
+                      "discretized by this subproblem), not with l2g_faces (which includes the overlap)",
+                      construct=f"{lst}.append(<faces of this subproblem>)", facts={"appended": u(arg) if arg else None})
+        init = [d for d in f.defs.get(lst, []) if m.before_loop(d.stmt)]
+        ctx.check("R5", len(init) == 1 and isinstance(init[0].value, ast.List) and not init[0].value.elts, mod, q,
+                  init[0].stmt if init else m.loop, f"{lst} must start as an empty list before the loop",
+                  construct=f"{lst} = []")
+
+    # ---------------- R3 (shortcut inside the loop) ----------------------------------------------------
+    def loop_if(s: ast.stmt):
+        res, cur, p = None, s, f.pm.get(s)
+        while p is not None and p is not m.loop:
+            if isinstance(p, ast.If):
+                res = (p, "body" if any(cur is x for x in p.body) else "orelse")
+            cur, p = p, f.pm.get(p)
+        return res
+
+    lifs = [loop_if(up.stmt) for up in m.updates]
+    has_shortcut = False
+    if any(x is not None for x in lifs):
+        if any(x is None for x in lifs) or len({(id(x[0]), x[1]) for x in lifs}) != 1:  # type: ignore[index]
+            raise f.und("accumulations are spread over different conditional arms of the loop body")
+        iff, arm = lifs[0]  # type: ignore[misc]
+        other = iff.orelse if arm == "body" else iff.body
+        if not other:
+            raise f.und("accumulations are conditional and the other arm is empty", iff)
+        has_shortcut = True
+        assigns: dict[tuple, ast.stmt] = {}
+        for s in other:
+            if isinstance(s, ast.Assign) and len(s.targets) == 1:
+                a, b = split_ref(s.targets[0]), split_ref(s.value)
+                if a is not None and a[0] in m.accs:
+                    if b is None:
+                        raise f.und("no-split shortcut assigns something other than a local matrix", s)
+                    assigns[a] = s
+        for a in accs:
+            ups = m.accs[a]
+            if not ups:
+                continue
+            ok = all((a, up.acc_key) in assigns and split_ref(assigns[(a, up.acc_key)].value) == (up.m, up.m_key)  # type: ignore[attr-defined]
+                     for up in ups)
+            got = [u(s.value) for k, s in assigns.items() if k[0] == a]  # type: ignore[attr-defined]
+            ctx.check("R3", ok, mod, q, assigns.get((a, ups[0].acc_key), iff),
+                      f"the no-split shortcut must assign {a} from {ups[0].m} (the local matrix accumulated into it in the "
+                      f"other arm); found {got or 'no assignment'}", construct=f"{a}: no-split shortcut",
+                      facts={"assigned_from": got})
+        # test: <grid>.num_faces == <faces_in>.size
+        t = iff.test if arm == "orelse" else (iff.test.operand if isinstance(iff.test, ast.UnaryOp) and isinstance(iff.test.op, ast.Not) else None)
+        if not (isinstance(t, ast.Compare) and len(t.ops) == 1 and isinstance(t.ops[0], ast.Eq)):
+            raise f.und("test of the no-split shortcut is not an equality", iff.test)
+        sides = [f.canon(t.left, iff), f.canon(t.comparators[0], iff)]
+        nfs = [x for x in sides if isinstance(x, ast.Attribute) and x.attr == "num_faces" and u(x.value) == m.grid]
+        szs = [x for x in sides if isinstance(x, ast.Attribute) and x.attr == "size" and isinstance(x.value, ast.Name)
+               and x.value.id in T.values()]
+        if len(nfs) != 1 or len(szs) != 1:
+            raise f.und("test of the no-split shortcut is not  <grid>.num_faces == <item of the subproblem tuple>.size", iff.test)
+        ctx.check("R5", szs[0].value.id == T["faces_in"], mod, q, iff,  # type: ignore[attr-defined]
+                  "the no-split shortcut overwrites the accumulators, so its test must compare the number of faces with "
+                  "faces_in_subgrid.size (faces discretized by this subproblem); l2g_faces includes the overlap and can "
+                  "cover the whole grid in a split run", construct="no-split shortcut test", facts={"test": u(iff.test)})
+
+    # ---------------- R2: rescaling ------------------------------------------------------------------------
+    for key, (info, st) in infos.items():
+        ctx.check("R2", info.recip is True, mod, q, st,
+                  "the scaling diagonal must be the reciprocal of the face repetition count", construct=f"scaling matrix {key}: reciprocal")
+        ctx.check("R2", info.order_ok, mod, q, st,
+                  f"vector rows are ordered face-major (all components of face 0, then face 1, ...): the repetition count "
+                  f"must be expanded accordingly; found {info.form}", construct=f"scaling matrix {key}: component ordering",
+                  facts={"form": info.form})
+    for a in accs:
+        rows = m.shape[a][0]
+        mine = [s for s in sc if s.acc == a]
+        if rows.kind == "C":
+            ctx.check("R2", not mine, mod, q, mine[0].stmt if mine else m.init_stmt[a],
+                      f"{a} has cell rows (each cell is discretized by exactly one subproblem): it must not be rescaled by the "
+                      f"face repetition count", construct=f"rescale {a}")
+            continue
+        ok, why = True, []
+        if len(mine) != 1:
+            ok = False
+            why.append("not rescaled" if not mine else f"rescaled {len(mine)} times")
+        for s in mine:
+            key_loop_ok(s.stmt, split_ref(s.stmt.targets[0])[1])  # type: ignore[attr-defined,index]
+            if m.keyed[a] != (split_ref(s.stmt.targets[0])[1] is not None):  # type: ignore[attr-defined,index]
+                raise f.und(f"rescaling of {a} disagrees with its dictionary level", s.stmt)
+            info = infos[u(s.sx)][0]
+            if s.side != "left":
+                ok = False
+                why.append("multiplied from the right (scales columns, not face rows)")
+            if info.vec != rows.vec or (rows.vec and info.nd != rows.nd):
+                ok = False
+                why.append(f"scaling built for {'vector' if info.vec else 'scalar'} face rows (nd={info.nd}) but rows are {rows.txt()}")
+            for g in gds:
+                if g.acc == a and not f.precedes(s.stmt, g.stmt):
+                    ok = False
+                    why.append("rescaled after being mapped to the full grid")
+        ctx.check("R2", ok, mod, q, mine[0].stmt if mine else m.init_stmt[a],
+                  f"{a} has face rows and is summed over overlapping subproblems: it must be left-multiplied exactly once after "
+                  f"the loop by diag(1/repetitions): " + ("; ".join(why) or "ok"), construct=f"rescale {a}",
+                  facts={"rows": rows.txt(), "scalings": [u(s.stmt) for s in mine]})
+    return dict(names=names, lrem=lrem, frem=frem, gds=gds, globs=globs, ws=ws, accs=accs, af=af, ac=ac,
+                key_loop_ok=key_loop_ok, key_iters=key_iters, has_shortcut=has_shortcut)
+
+
+def check_chain(ctx: Ctx, m: Model, st: dict) -> dict:
+    """Map to the full grid -> final removal -> stores (R3, R4, R1)."""
+    f, mod, q = m.f, m.f.mod, m.f.qual
+    gds, frem, ws, accs, af, ac = st["gds"], st["frem"], st["ws"], st["accs"], st["af"], st["ac"]
+    key_loop_ok = st["key_loop_ok"]
+
+    # ---- full-grid mapping, per arm -----------------------------------------------------------------
+    arms: dict[tuple, list[GlobDef]] = {}
+    for g in gds:
+        arms.setdefault(g.arm, []).append(g)
+    if len(arms) > 1:
+        if len(arms) != 2 or len({k[0] for k in arms}) != 1 or {k[1] for k in arms} != {"body", "orelse"}:
+            raise f.und("full-grid mappings are spread over unrelated conditional arms")
+    g_of: dict[str, str] = {}
+    for armk, lst in arms.items():
+        arm_txt = {"": "", "body": " (if-arm)", "orelse": " (else-arm)"}[armk[1]]
+        is_alias = [g.alias for g in lst]
+        if any(is_alias):
+            if not all(is_alias):
+                raise f.und("an arm mixes plain aliases and mapped accumulators", lst[0].stmt)
+            iff, _ = f.arm_of(lst[0].stmt)
+            tn = {u(n) for n in ast.walk(iff.test) if isinstance(n, ast.Attribute)}  # type: ignore[union-attr]
+            need = {f"{m.grid}.num_faces", f"{m.sd}.num_faces", f"{m.grid}.num_cells", f"{m.sd}.num_cells"}
+            if not need <= tn or armk[1] != "body":
+                raise f.und("accumulators are aliased to the full grid under a test that is not "
+                            "`active grid has all cells and all faces`", iff.test)  # type: ignore[union-attr]
+        for a in accs:
+            mine = [g for g in lst if g.acc == a]
+            ctx.check("R3", len(mine) == 1, mod, q, mine[0].stmt if mine else lst[0].stmt,
+                      f"accumulator {a} must be mapped to the full grid exactly once{arm_txt}; found {len(mine)}",
+                      construct=f"{a}: mapped to the full grid{arm_txt}")
+            for g in mine:
+                key_loop_ok(g.stmt, g.g_key)
+                if (g.g_key is not None) != m.keyed[a] or g.g_key != g.acc_key:
+                    raise f.und("dictionary level/key of a full-grid matrix differs from its accumulator", g.stmt)
+                if a in g_of and g_of[a] != g.g:
+                    ctx.check("R3", False, mod, q, g.stmt, f"{a} is mapped to {g.g} in one arm and to {g_of[a]} in the other",
+                              construct=f"{a}: same full-grid name in both arms")
+                g_of.setdefault(a, g.g)
+                if not g.alias:
+                    rows, cols = m.shape[a]
+                    ctx.check("R4", _left_ok(g.L, rows), mod, q, g.stmt,
+                              f"left factor of the full-grid mapping of {a} is a {_mr_txt(g.L)} but the rows are {rows.txt()}",
+                              construct=f"{g.g} = L * {a} * R : left factor")
+                    ctx.check("R4", _right_ok(g.R, cols), mod, q, g.stmt,
+                              f"right factor of the full-grid mapping of {a} is a {_mr_txt(g.R)} but the columns are {cols.txt()}",
+                              construct=f"{g.g} = L * {a} * R : right factor")
+    acc_of_g = {g: a for a, g in g_of.items()}
+    if len(acc_of_g) != len(g_of):
+        raise f.und("two accumulators are mapped to the same full-grid name")
+
+    # ---- map calls: arguments --------------------------------------------------------------------------
+    for call, stm in m.map_calls.values():
+        a = call.args
+        if len(a) < 3 or not all(isinstance(x, ast.Name) for x in a[:3]):
+            raise f.und("subgrid_to_grid_mapping is not called with three plain names first", call)
+        got = [x.id for x in a[:3]]  # type: ignore[attr-defined]
+        if m.in_loop(stm):
+            want = [m.grid, m.T["l2g_faces"], m.T["l2g_cells"]]
+            ctx.check("R4", got == want, mod, q, stm,
+                      f"the local-to-active map must be built from (grid passed to subproblems, l2g_faces, l2g_cells) = {want}: "
+                      f"the local matrices are indexed by all local faces/cells including the overlap; found {got}",
+                      construct=f"in-loop subgrid_to_grid_mapping({', '.join(got)})")
+        else:
+            fd = f.reaching(got[1], stm)
+            ok_f = any(d.kind == "tuple" and isinstance(d.value, ast.Call) and call_name(d.value) == "extract_subgrid"
+                       and d.pos == 1 for d in fd) and all(d.kind in ("tuple", "plain") for d in fd)
+            ok = got[0] == m.sd and ok_f and got[2] == ac
+            ctx.check("R4", ok, mod, q, stm,
+                      f"the active-to-full map must be built from ({m.sd}, faces of the extracted active grid, {ac}); found {got}",
+                      construct=f"post-loop subgrid_to_grid_mapping({', '.join(got)})")
+
+    # ---- final removal --------------------------------------------------------------------------------------
+    keep: dict[str, Removal] = {}
+    for r in frem:
+        if r.kind in keep:
+            raise f.und("two final removals over the same index space", r.stmt)
+        keep[r.kind] = r
+        if r.kind == "F":
+            ok = isinstance(r.keep, ast.Name) and r.keep.id == af
+            ctx.check("R3", ok, mod, q, r.stmt, f"the final face removal must keep exactly the active faces ({af})",
+                      construct="final removal over faces: kept set", facts={"kept": u(r.keep)})
+        else:
+            ok = isinstance(r.keep, ast.Name) and f.depends(r.keep.id, af, r.stmt)
+            ctx.check("R3", ok, mod, q, r.stmt, f"the cells kept by the final cell removal must be derived from the active faces ({af})",
+                      construct="final removal over cells: kept set", facts={"kept": u(r.keep)})
+    for g, a in acc_of_g.items():
+        rows = m.shape[a][0]
+        cover = [r for r in frem if g in r.names]
+        defs_g = [x.stmt for x in gds if x.g == g]
+        reads = [w.stmt for w in ws if w.g == g]
+        right = [r for r in cover if all(f.before(d, r.stmt) for d in defs_g) and all(f.before(r.stmt, w) for w in reads)]
+        ctx.check("R3", bool(right), mod, q, cover[0].stmt if cover else (frem[0].stmt if frem else m.loop),
+                  f"{g} (full-grid image of {a}) must be passed to the final remove_nonlocal_contribution over non-active "
+                  f"{'faces' if rows.kind == 'F' else 'cells'}, after it is computed and before it is stored",
+                  construct=f"{g}: final removal")
+        if cover:
+            bad = [r for r in cover if r.kind != rows.kind]
+            ctx.check("R1", not bad, mod, q, (bad or cover)[0].stmt,
+                      f"{g} has {rows.txt()} rows but is passed to the final removal over {'cells' if rows.kind == 'F' else 'faces'}",
+                      construct=f"{g}: final removal index space")
+    for r in frem:
+        sp = [m.shape[acc_of_g[n]][0] for n in r.names if n in acc_of_g and m.shape[acc_of_g[n]][0].kind == r.kind]
+        if sp:
+            exp = {"DIM" if s.vec else "1" for s in sp}
+            got = f.dim_token(r.nd, r.stmt)
+            ctx.check("R1", len(exp) == 1 and got in exp, mod, q, r.stmt,
+                      f"nd argument of the final removal is {u(r.nd)} but the matrices have rows {sorted({s.txt() for s in sp})}",
+                      construct=f"final removal over {r.kind}: nd")
+        extra = [n for n in r.names if n not in acc_of_g]
+        ctx.check("R3", not extra, mod, q, r.stmt, f"final removal is applied to {extra}, which are not full-grid matrices",
+                  construct=f"final removal over {r.kind}: arguments are full-grid matrices")
+
+    # ---- stores ------------------------------------------------------------------------------------------------
+    groups: dict[tuple, list[Write]] = {}
+    for w in ws:
+        iff, arm = f.arm_of(w.stmt)
+        groups.setdefault((id(iff) if iff is not None else 0, arm or ""), []).append(w)
+    typ: dict[tuple, str] = {}
+    ifs: dict[int, ast.If] = {}
+    for k, lst in groups.items():
+        iff, _ = f.arm_of(lst[0].stmt)
+        if iff is not None:
+            ifs[id(iff)] = iff
+        d = {("full" if w.depth == 1 else "update") for w in lst}
+        if len(d) != 1:
+            raise f.und("an arm mixes whole-matrix stores and row-subset stores", lst[0].stmt)
+        t = d.pop()
+        if t == "full" and all(w.g is None for w in lst):
+            t = "empty"
+        typ[k] = t
+    fulls = [k for k in groups if typ[k] == "full"]
+    upds = [k for k in groups if typ[k] == "update"]
+    if len(fulls) != 1 or len(upds) != 1:
+        raise AnchorError(f"{f.where()}: expected one full-store arm and one update (row-subset) arm, found "
+                          f"{len(fulls)} / {len(upds)}")
+    kf, ku = fulls[0], upds[0]
+    if kf[0] != ku[0] or kf[0] == 0:
+        raise f.und("full-store arm and update arm are not the two arms of one if-statement")
+    iff = ifs[kf[0]]
+    t = iff.test
+    neg = isinstance(t, ast.UnaryOp) and isinstance(t.op, ast.Not)
+    tv = f.canon(t.operand if neg else t, iff)  # type: ignore[union-attr]
+    if not (isinstance(tv, ast.Call) and call_name(tv) == "get" and tv.args and isinstance(tv.args[0], ast.Constant)
+            and tv.args[0].value == "update_discretization"):
+        raise f.und("the store arms are not selected by the 'update_discretization' parameter", iff.test)
+    ctx.check("R3", ku[1] == ("orelse" if neg else "body"), mod, q, iff,
+              "row-subset stores must be in the update_discretization=True arm and whole-matrix stores in the other",
+              construct="update arm polarity")
+    names = {"full": "full-store arm", "update": "update arm", "empty": "empty-grid shortcut"}
+    all_keys: list[str] = []
+    for k in groups:
+        for w in groups[k]:
+            if w.key not in all_keys:
+                all_keys.append(w.key)
+    for k, lst in groups.items():
+        have = {w.key for w in lst}
+        for key in all_keys:
+            ctx.check("R3", key in have, mod, q, lst[0].stmt,
+                      f"matrix_dictionary[{key}] is stored in another arm but not in the {names[typ[k]]}",
+                      construct=f"key {key}: stored in the {names[typ[k]]}")
+    pair_f = {w.key: w.g for w in groups[kf]}
+    for g in sorted(acc_of_g):
+        for k in (kf, ku):
+            hit = [w for w in groups[k] if w.g == g]
+            ctx.check("R3", len(hit) == 1, mod, q, hit[0].stmt if hit else groups[k][0].stmt,
+                      f"{g} must be stored exactly once in the {names[typ[k]]}; found {len(hit)}",
+                      construct=f"{g}: stored in the {names[typ[k]]}")
+    for w in groups[ku]:
+        a = acc_of_g.get(w.g)  # type: ignore[arg-type]
+        if a is None:
+            raise f.und("update arm stores something that is not a full-grid matrix", w.stmt)
+        rows = m.shape[a][0]
+        ctx.check("R3", pair_f.get(w.key) == w.g, mod, q, w.stmt,
+                  f"update arm stores {w.g} under {w.key}; the full-store arm stores {pair_f.get(w.key)} there",
+                  construct=f"key {w.key}: same matrix in both arms")
+        ctx.check("R3", u(w.lhs_ind) == u(w.rhs_ind), mod, q, w.stmt,  # type: ignore[arg-type]
+                  f"rows written ({u(w.lhs_ind)}) differ from rows read ({u(w.rhs_ind)})",  # type: ignore[arg-type]
+                  construct=f"{w.g}: update rows read == rows written")
+        r = keep.get(rows.kind)
+        if r is not None:
+            ind = f.canon(w.lhs_ind, w.stmt)  # type: ignore[arg-type]
+            kept = u(f.canon(r.keep, r.stmt))  # type: ignore[arg-type]
+            if rows.vec:
+                ok = (isinstance(ind, ast.Call) and call_name(ind) == "expand_indices_nd" and len(ind.args) >= 2
+                      and u(f.canon(ind.args[0], w.stmt)) == kept and f.dim_token(ind.args[1], w.stmt) == "DIM")
+            else:
+                ok = u(ind) == kept
+            ctx.check("R3", ok, mod, q, w.stmt,
+                      f"the rows of {w.g} written on update must be exactly the rows the final removal keeps "
+                      f"({'expand_indices_nd(' + u(r.keep) + ', dim)' if rows.vec else u(r.keep)}); found {u(w.lhs_ind)}",  # type: ignore[arg-type]
+                      construct=f"{w.g}: update rows == rows kept by the final removal", facts={"rows": u(ind)})
+        if m.keyed[a]:
+            key_loop_ok(w.stmt, w.g_key)
+            if w.g_key is None:
+                raise f.und("dictionary-valued full-grid matrix is row-indexed without a key", w.stmt)
+            ok = w.depth == 3 and w.lhs_mid == w.g_key
+            msg = (f"{w.g} is a dictionary (one matrix per coupling key) and the full-store arm stores the dictionary under "
+                   f"{w.key}; the update arm row-indexes matrix_dictionary[{w.key}] itself instead of "
+                   f"matrix_dictionary[{w.key}][{w.g_key}]")
+            if not ok and not REPORT_KEYED_UPDATE_LEVEL:
+                ctx.note(f"SUSPECTED-DEFECT {mod.rel}:{q}: {msg} (TypeError: unhashable ndarray when update_discretization=True)")
+                ok = True
+            ctx.check("R3", ok, mod, q, w.stmt, msg, construct=f"{w.g}: update arm dictionary level")
+        elif w.depth != 2 or w.g_key is not None:
+            raise f.und("row-subset store of a plain matrix has an unexpected subscript depth", w.stmt)
+    if len(st["key_iters"]) > 1:
+        its = sorted(st["key_iters"])
+        ctx.check("R3", False, mod, q, st["key_iters"][its[1]],
+                  f"loops over the keys of the dictionary-valued matrices iterate different collections: {its}",
+                  construct="key loops iterate one collection")
+    elif st["key_iters"]:
+        ctx.check("R3", True, mod, q, m.loop, "", construct="key loops iterate one collection", desc="key loops iterate one collection")
+    # key -> row/col spaces, for R7
+    return {k: m.shape[acc_of_g[g]] for k, g in pair_f.items() if g in acc_of_g}
+
+
+# ------------------------------------------------------------------------------------
+# cross-module conventions
+
+def check_producer(ctx: Ctx) -> None:
+    """R5: every yield of _fvutils.subproblems has faces at tuple positions 1 and 4 and cells at 2 and 3
+    (the consumers pair (4,1) in the face elimination/count and (3,2) in the cell elimination)."""
+    mod = ctx.repo.module(FVUTILS)
+    f = Fn(mod, "subproblems")
+    ys = [n for s in f.stmts for n in ast.walk(s) if isinstance(n, ast.Yield)]
+    ys = [y for y in ys if isinstance(y.value, ast.Tuple) and len(y.value.elts) == 5]
+    if not ys:
+        raise AnchorError(f"{FVUTILS}:subproblems yields no 5-tuple")
+
+    def kind(e: ast.expr, at: ast.stmt) -> Optional[str]:
+        c = f.canon(e, at)
+        at_ = {n.attr for n in ast.walk(c) if isinstance(n, ast.Attribute)}
+        if "num_faces" in at_ and "num_cells" not in at_:
+            return "F"
+        if "num_cells" in at_ and "num_faces" not in at_:
+            return "C"
+        if "parent_cell_ind" in at_:
+            return "C"
+        if isinstance(e, ast.Name):
+            d = f.unique_def(e.id, at)
+            if d is not None and d.kind == "tuple" and isinstance(d.value, ast.Call):
+                cn = call_name(d.value)
+                if cn == "extract_subgrid" and d.pos == 1:
+                    return "F"  # extract_subgrid -> (grid, faces, nodes)
+                if cn == "cell_ind_for_partial_update" and d.pos in (0, 1):
+                    return "CF"[d.pos]  # -> (cells, faces)
+        return None
+
+    for y in ys:
+        at = f.stmt_of(y)
+        ks = [kind(e, at) for e in y.value.elts]  # type: ignore[union-attr]
+        known = [(i, k) for i, k in enumerate(ks) if k is not None and i > 0]
+        ok = all(k == ("F" if i in (1, 4) else "C") for i, k in known)
+        if len(known) < 2:
+            raise Undecided(f"{FVUTILS}:subproblems: cannot type the items of a yield [{u(y)[:80]}]")
+        ctx.check("R5", ok, mod, "subproblems", at,
+                  "subproblems() must yield (grid, faces_in_subgrid, cells_in_subgrid, l2g_cells, l2g_faces): the discretizations "
+                  "read faces at positions 1 and 4 and cells at 2 and 3", construct=f"yield kinds {ks}", facts={"kinds": ks})
+
+
+def check_partition(ctx: Ctx) -> None:
+    """R4: subgrid_to_grid_mapping(sd, faces, cells, ...) returns (face_map [global x local], cell_map [local x global])."""
+    mod = ctx.repo.module(PARTITION)
+    f = Fn(mod, "subgrid_to_grid_mapping")
+    params = [a.arg for a in f.fn.args.args]
+    ctx.check("R4", len(params) >= 5 and "face" in params[1] and "cell" in params[2] and params[3] == "is_vector" and params[4] == "nd",
+              mod, "subgrid_to_grid_mapping", f.fn, "signature must be (grid, faces, cells, is_vector, nd)",
+              construct="subgrid_to_grid_mapping signature", facts={"params": params})
+    rets = [s for s in f.stmts if isinstance(s, ast.Return)]
+    if len(rets) != 1 or not (isinstance(rets[0].value, ast.Tuple) and len(rets[0].value.elts) == 2
+                              and all(isinstance(e, ast.Name) for e in rets[0].value.elts)):
+        raise Undecided(f"{PARTITION}:subgrid_to_grid_mapping: return is not a pair of names")
+    for pos, nm in enumerate(e.id for e in rets[0].value.elts):  # type: ignore[attr-defined]
+        ds = [d for d in f.defs.get(nm, []) if d.kind == "plain"]
+        if not ds:
+            raise Undecided(f"{PARTITION}:subgrid_to_grid_mapping: {nm} has no plain definition")
+        for d in ds:
+            shp = kwarg(d.value, "shape") if isinstance(d.value, ast.Call) else None
+            if not (isinstance(shp, ast.Tuple) and len(shp.elts) == 2):
+                raise Undecided(f"{PARTITION}:subgrid_to_grid_mapping: {nm} is not built with an explicit shape")
+            glob_side = shp.elts[0] if pos == 0 else shp.elts[1]
+            want = "num_faces" if pos == 0 else "num_cells"
+            at_ = {n.attr for n in ast.walk(glob_side) if isinstance(n, ast.Attribute)}
+            ctx.check("R4", want in at_, mod, "subgrid_to_grid_mapping", d.stmt,
+                      f"item {pos} of the returned pair must be the {'face map (global faces x local faces)' if pos == 0 else 'cell map (local cells x global cells)'}",
+                      construct=f"return[{pos}] = {nm}: shape {u(shp)}")
+
+
+def check_helper(ctx: Ctx) -> None:
+    """R6: remove_nonlocal_contribution(raw_ind, nd, *args) zeroes rows expand_indices_nd(raw_ind, nd) of every arg."""
+    mod = ctx.repo.module(FVUTILS)
+    f = Fn(mod, "remove_nonlocal_contribution")
+    a = f.fn.args
+    if len(a.args) != 2 or a.vararg is None:
+        raise AnchorError(f"{FVUTILS}:remove_nonlocal_contribution(raw_ind, nd, *args) signature expected")
+    p0, p1, va = a.args[0].arg, a.args[1].arg, a.vararg.arg
+    loops = [s for s in f.stmts if isinstance(s, ast.For)]
+    zr = [(s, c) for s in f.stmts if isinstance(s, ast.Expr) for c in [s.value] if isinstance(c, ast.Call) and call_name(c) == "zero_rows"]
+    if len(loops) != 1 or len(zr) != 1:
+        raise Undecided(f"{FVUTILS}:remove_nonlocal_contribution: expected one loop calling zero_rows once")
+    lp, (zs, zc) = loops[0], zr[0]
+    ctx.check("R6", isinstance(lp.iter, ast.Name) and lp.iter.id == va, mod, "remove_nonlocal_contribution", lp,
+              f"the loop must visit every matrix passed (*{va}); found iteration over {u(lp.iter)}",
+              construct="loop over all matrices", facts={"iter": u(lp.iter)})
+    ok = f.contains(lp, zs) and len(zc.args) == 2 and u(zc.args[0]) == u(lp.target)
+    ctx.check("R6", ok, mod, "remove_nonlocal_contribution", zs, "zero_rows must be applied to the loop variable",
+              construct="zero_rows(<loop variable>, rows)")
+    rows = f.canon(zc.args[1], zs) if len(zc.args) == 2 else None
+    ok = (isinstance(rows, ast.Call) and call_name(rows) == "expand_indices_nd" and [u(x) for x in rows.args[:2]] == [p0, p1]
+          and len(rows.args) == 2 and not rows.keywords)
+    ctx.check("R6", ok, mod, "remove_nonlocal_contribution", zs,
+              f"rows zeroed must be expand_indices_nd({p0}, {p1}) (default face-major ordering)",
+              construct="rows = expand_indices_nd(raw_ind, nd)", facts={"rows": u(rows) if rows is not None else None})
+
+
+def check_tables(ctx: Ctx, mod, cls: str, key_spaces: dict) -> None:
+    """R7: left/right key tables handed to partial_update_discretization agree with the typing from discretize."""
+    q = f"{cls}.update_discretization"
+    f = Fn(mod, q)
+    calls = [c for s in f.stmts for c in ast.walk(s) if isinstance(c, ast.Call) and call_name(c) == "partial_update_discretization"]
+    if len(calls) != 1:
+        raise AnchorError(f"{mod.rel}:{q}: expected one call of partial_update_discretization")
+    call = calls[0]
+    at = f.stmt_of(call)
+    tables: dict[tuple, set[str]] = {}
+    for kw in call.keywords:
+        parts = (kw.arg or "").split("_")
+        if len(parts) == 3 and parts[0] in ("scalar", "vector") and parts[1] in ("cell", "face") and parts[2] in ("left", "right"):
+            v = f.canon(kw.value, at)
+            if not isinstance(v, (ast.List, ast.Tuple)):
+                raise Undecided(f"{mod.rel}:{q}: {kw.arg} is not a literal list")
+            tables[(parts[2], parts[0] == "vector", "F" if parts[1] == "face" else "C")] = {u(e) for e in v.elts}
+    if not tables:
+        raise AnchorError(f"{mod.rel}:{q}: no key tables passed to partial_update_discretization")
+    for key, (rows, cols) in key_spaces.items():
+        for side, sp in (("left", rows), ("right", cols)):
+            inn = sorted(f"{'vector' if t[1] else 'scalar'}_{'face' if t[2] == 'F' else 'cell'}_{t[0]}"
+                         for t, ks in tables.items() if t[0] == side and key in ks)
+            want = f"{'vector' if sp.vec else 'scalar'}_{'face' if sp.kind == 'F' else 'cell'}_{side}"
+            ctx.check("R7", inn == [want], mod, q, at,
+                      f"{key} has {('rows', 'columns')[side == 'right']} {sp.txt()} in discretize, so it must be listed in {want} "
+                      f"(only); it is listed in {inn or 'no ' + side + ' table'}", construct=f"{key}: {side} table",
+                      facts={"listed_in": inn, "expected": want})
+    listed = set().union(*tables.values())
+    extra = sorted(listed - set(key_spaces))
+    ctx.check("R7", not extra, mod, q, at, f"keys {extra} are listed in the update tables but never stored by discretize",
+              construct="update tables list only stored keys")
+
+
+def run(ctx: Ctx) -> None:
+    for rel, cls in TARGETS:
+        mod = ctx.repo.module(rel)
+        m = Model(Fn(mod, f"{cls}.discretize"))
+        st = check_function(ctx, m)
+        key_spaces = check_chain(ctx, m, st)
+        check_tables(ctx, mod, cls, key_spaces)
+        ctx.sample({"function": f"{cls}.discretize", "subproblem_tuple": m.T,
+                    "accumulators": {a: f"{r.txt()} x {c.txt()}" for a, (r, c) in m.shape.items()},
+                    "local_removals": [{"over": r.kind, "nd": u(r.nd), "matrices": r.names} for r in st["lrem"]],
+                    "final_removals": [{"over": r.kind, "nd": u(r.nd), "matrices": r.names, "kept": u(r.keep)} for r in st["frem"]],
+                    "no_split_shortcut": st["has_shortcut"]})
+    check_producer(ctx)
+    check_partition(ctx)
+    check_helper(ctx)
+
+
+# ------------------------------------------------------------------------------------
+# seeded mutants (single textual edits that still compile; most are invisible to a
+# discretization done in one piece, i.e. to most of the test-suite)
+
+def _m(name, file, old, new, rule, control=False, count=1):
+    return dict(name=name, file=file, old=old, new=new, rule=rule, control=control, count=count)
+
+
+MUTANTS = [
+    # --- R2: rescaling
+    _m("mpfa-drop-scaling-bound-flux", MPFA, "        active_bound_flux = scaling @ active_bound_flux\n", "", "R2", control=True),
+    _m("mpfa-drop-scaling-vector-source", MPFA, "        active_vector_source = scaling @ active_vector_source\n", "", "R2"),
+    _m("mpsa-drop-scaling-bound-displacement-cell", MPSA,
+       "        active_bound_displacement_cell = scaling @ active_bound_displacement_cell\n", "", "R2"),
+    _m("biot-drop-scaling-bound-displacement-pressure", BIOT,
+       "            active_bound_displacement_pressure[key] = (\n                scaling_vector @ active_bound_displacement_pressure[key]\n            )\n",
+       "", "R2"),
+    _m("biot-scaling-from-the-right", BIOT, "        active_bound_stress = scaling_vector @ active_bound_stress\n",
+       "        active_bound_stress = active_bound_stress @ scaling_vector\n", "R2"),
+    _m("mpsa-repetitions-block-ordered", MPSA,
+       "np.bincount(np.concatenate(faces_in_subgrid_accum)), (nd, 1)\n        ).ravel(\"F\")",
+       "np.bincount(np.concatenate(faces_in_subgrid_accum)), (nd, 1)\n        ).ravel(\"C\")", "R2"),
+    _m("mpsa-scaling-twice", MPSA, "        active_stress = scaling @ active_stress\n",
+       "        active_stress = scaling @ active_stress\n        active_stress = scaling @ active_stress\n", "R2"),
+    _m("biot-scaling-not-reciprocal", BIOT, "(1.0 / num_face_repetitions_vector, 0), shape=(nf * nd, nf * nd)",
+       "(1.0 * num_face_repetitions_vector, 0), shape=(nf * nd, nf * nd)", "R2"),
+    # --- R1: removal typed by row space
+    _m("biot-face-matrix-to-cell-removal", BIOT,
+       "                *matrices_from_dict(loc_scalar_gradient),\n                *matrices_from_dict(loc_bound_displacement_pressure),\n            )\n\n"
+       "            eliminate_cell = np.where(\n                np.logical_not(np.isin(l2g_cells, cells_in_subgrid))\n            )[0]\n"
+       "            _fvutils.remove_nonlocal_contribution(\n                eliminate_cell,\n                1,\n",
+       "                *matrices_from_dict(loc_bound_displacement_pressure),\n            )\n\n"
+       "            eliminate_cell = np.where(\n                np.logical_not(np.isin(l2g_cells, cells_in_subgrid))\n            )[0]\n"
+       "            _fvutils.remove_nonlocal_contribution(\n                eliminate_cell,\n                1,\n                *matrices_from_dict(loc_scalar_gradient),\n",
+       "R1", control=True),
+    _m("biot-cell-matrices-removed-over-faces", BIOT, "                eliminate_cell,\n                1,\n", "                eliminate_face,\n                1,\n", "R1"),
+    _m("biot-final-removal-consistency-over-faces", BIOT,
+       "            *matrices_from_dict(bound_displacement_pressure),\n        )\n\n        # Cells to be updated",
+       "            *matrices_from_dict(bound_displacement_pressure),\n            *matrices_from_dict(consistency),\n        )\n\n        # Cells to be updated", "R1"),
+    _m("mpfa-local-removal-forgets-vector-sources", MPFA, "remove_nonlocal_contribution(eliminate_face, 1, *discr_fields)",
+       "remove_nonlocal_contribution(eliminate_face, 1, *discr_fields[:4])", "R1"),
+    _m("mpsa-local-removal-drops-one", MPSA,
+       "                loc_bound_stress,\n                loc_bound_displacement_cell,\n                loc_bound_displacement_face,\n            )\n\n            # Next, transfer",
+       "                loc_bound_stress,\n                loc_bound_displacement_face,\n            )\n\n            # Next, transfer", "R1"),
+    _m("mpsa-local-removal-scalar-nd", MPSA, "                eliminate_face,\n                sd.dim,\n                loc_stress,",
+       "                eliminate_face,\n                1,\n                loc_stress,", "R1"),
+    # --- R3: completeness chain
+    _m("mpsa-update-arm-forgets-matrix", MPSA,
+       "            matrix_dictionary[self.bound_displacement_cell_matrix_key][update_ind] = (\n                bound_displacement_cell_glob[update_ind]\n            )\n",
+       "", "R3", control=True),
+    _m("mpfa-final-removal-forgets-vector-source", MPFA, "            bound_pressure_face_glob,\n            vector_source_glob,\n            bound_pressure_vector_source_glob,\n        )",
+       "            bound_pressure_face_glob,\n            bound_pressure_vector_source_glob,\n        )", "R3"),
+    _m("mpfa-shortcut-wrong-sibling", MPFA, "                active_bound_pressure_cell = loc_bound_pressure_cell\n",
+       "                active_bound_pressure_cell = loc_flux\n", "R3"),
+    _m("mpfa-update-arm-wrong-sibling", MPFA, "                bound_pressure_face_glob[active_faces]\n", "                bound_flux_glob[active_faces]\n", "R3"),
+    _m("mpsa-update-rows-from-extracted-faces", MPSA, "update_ind = pp.array_operations.expand_indices_nd(active_faces, sd.dim)",
+       "update_ind = pp.array_operations.expand_indices_nd(extracted_faces, sd.dim)", "R3"),
+    _m("biot-final-face-removal-forgets-scalar-gradient", BIOT,
+       "            bound_displacement_face,\n            *matrices_from_dict(scalar_gradient),\n", "            bound_displacement_face,\n", "R3"),
+    _m("biot-local-matrix-never-accumulated", BIOT,
+       "                active_consistency[key] += (\n                    cell_map_scalar.transpose() * loc_biot_stab[key] * cell_map_scalar\n                )\n", "", "R3"),
+    # --- R4: factors / index spaces
+    _m("mpfa-vector-source-scalar-cell-map", MPFA, "active_vector_source += face_map * loc_vector_source * cell_map_vec",
+       "active_vector_source += face_map * loc_vector_source * cell_map", "R4"),
+    _m("mpfa-active-map-from-active-faces", MPFA, "                sd, extracted_faces, active_cells, is_vector=False\n",
+       "                sd, active_faces, active_cells, is_vector=False\n", "R4"),
+    _m("mpsa-local-map-from-faces-in-subgrid", MPSA, "                active_grid, l2g_faces, l2g_cells, is_vector=True\n",
+       "                active_grid, faces_in_subgrid, l2g_cells, is_vector=True\n", "R4"),
+    _m("biot-divergence-left-untransposed", BIOT,
+       "                active_consistency[key] += (\n                    cell_map_scalar.transpose() * loc_biot_stab[key] * cell_map_scalar",
+       "                active_consistency[key] += (\n                    cell_map_scalar * loc_biot_stab[key] * cell_map_scalar", "R4"),
+    # --- R5: which faces are counted
+    _m("mpfa-count-l2g-faces", MPFA, "faces_in_subgrid_accum.append(faces_in_subgrid)", "faces_in_subgrid_accum.append(l2g_faces)", "R5", control=True),
+    _m("biot-count-l2g-faces", BIOT, "faces_in_subgrid_accum.append(faces_in_subgrid)", "faces_in_subgrid_accum.append(l2g_faces)", "R5"),
+    _m("mpfa-shortcut-test-l2g-faces", MPFA, "if active_grid.num_faces == faces_in_subgrid.size:", "if active_grid.num_faces == l2g_faces.size:", "R5"),
+    _m("mpsa-eliminate-without-negation", MPSA, "                np.logical_not(np.isin(l2g_faces, faces_in_subgrid))\n            )[0]\n            _fvutils.remove_nonlocal_contribution(\n                eliminate_face,\n                sd.dim,\n                loc_stress,",
+       "                np.isin(l2g_faces, faces_in_subgrid)\n            )[0]\n            _fvutils.remove_nonlocal_contribution(\n                eliminate_face,\n                sd.dim,\n                loc_stress,", "R5"),
+    _m("subproblems-yield-swapped", FVUTILS, "yield sub_sd, loc_faces, cells_in_partition, l2g_cells, l2g_faces",
+       "yield sub_sd, loc_faces, cells_in_partition, l2g_faces, l2g_cells", "R5"),
+    # --- R6: the helper
+    _m("helper-skips-first-matrix", FVUTILS, "    for mat in args:\n        pp.matrix_operations.zero_rows(mat, eliminate_ind)",
+       "    for mat in args[1:]:\n        pp.matrix_operations.zero_rows(mat, eliminate_ind)", "R6"),
+    _m("helper-ignores-nd", FVUTILS, "eliminate_ind = pp.array_operations.expand_indices_nd(raw_ind, nd)\n    for mat in args:",
+       "eliminate_ind = pp.array_operations.expand_indices_nd(raw_ind, 1)\n    for mat in args:", "R6"),
+    # --- R7: update tables
+    _m("biot-divergence-listed-as-face-left", BIOT, "        scalar_cell_left = [\n            self.displacement_divergence_matrix_key,\n",
+       "        scalar_cell_left = [\n", "R7"),
+]
